@@ -33,7 +33,11 @@ def node_class(kind, max_depth, base="Schema", extra_opts=None):
            "optional": "Optional['%s'] = None" % name,
            "dict": "Dict[str, '%s'] = Field(default_factory=dict)" % name,
            "tuple": "Tuple['%s', ...] = ()" % name,
-           "union": "Union['%s', int, None] = None" % name}[kind]
+           "union": "Union['%s', int, None] = None" % name,
+           "dictf": "Dict[float, '%s'] = Field(default_factory=dict)" % name,
+           "dictd": "Dict[Decimal, '%s'] = Field(default_factory=dict)" % name,
+           "dictb": "Dict[bool, '%s'] = Field(default_factory=dict)" % name,
+           "listopt": "List[Optional['%s']] = Field(default_factory=list)" % name}[kind]
     okw = dict(extra_opts or {})
     if max_depth is not None:
         okw["max_depth"] = max_depth
@@ -52,7 +56,7 @@ def tree_input(rng, kind, depth, bad_leaf=False, width=2):
         return node
     def child(d):
         return tree_input(rng, kind, d, bad_leaf, width)
-    if kind == "list":
+    if kind in ("list", "listopt"):
         n = rng.randint(1, width)
         deep = rng.randrange(n)      # the deepest child sits at a random index (0 included)
         node["link"] = [child(depth - 1) if i == deep else child(rng.randint(1, depth - 1)) for i in range(n)]
@@ -60,8 +64,10 @@ def tree_input(rng, kind, depth, bad_leaf=False, width=2):
         n = rng.randint(1, width)
         deep = rng.randrange(n)
         node["link"] = tuple(child(depth - 1) if i == deep else child(rng.randint(1, depth - 1)) for i in range(n))
-    elif kind == "dict":
-        keys = rng.sample(["", "a", "b", "0"], rng.randint(1, width))
+    elif kind in ("dict", "dictf", "dictd", "dictb"):
+        pool = {"dict": ["", "a", "b", "0"], "dictf": [1.5, "2.5", 0.0, 3], "dictd": ["1.5", 0, "2"],
+                "dictb": [True, False, "true", 0]}[kind]
+        keys = rng.sample(pool, rng.randint(1, min(width, len(pool))))
         deep = rng.choice(keys)
         node["link"] = {k: (child(depth - 1) if k == deep else child(rng.randint(1, depth - 1))) for k in keys}
     else:
